@@ -265,7 +265,7 @@ class Norm:
 def gen_program(rng) -> AProg:
     ncon = rng.randint(3, 4)
     adts = [("S%d" % i, 0) for i in range(ncon)] + [("W", 1), ("V", 1)]
-    if rng.random() < 0.35:
+    if rng.random() < 0.6:
         adts.append(("P", 2))
     ntr = rng.randint(1, 3)
     traits, next_a = [], 0
@@ -301,6 +301,19 @@ def gen_program(rng) -> AProg:
             r = rng.random()
             if r < 0.55:
                 heads.append((k, ("adt", n, tuple(var(i) for i in range(k)))))
+            elif k == 2 and r < 0.95:
+                # headers that pass chalk's syntactic could_match filter against a concrete self type
+                # without unifying with it: a repeated parameter next to concrete instances (coherent:
+                # pairwise non-unifiable)
+                a, b = rng.sample(consts, 2)
+                hs = [(1, ("adt", n, (var(0), var(0)))), (0, ("adt", n, (a, b)))]
+                if rng.random() < 0.5:
+                    hs.append((1, ("adt", n, (var(0), ("adt", "W", (var(0),))))))
+                    hs.append((0, ("adt", n, (a, ("adt", "W", (b,))))))
+                if rng.random() < 0.4:
+                    hs.append((1, ("adt", n, (("adt", "W", (var(0),)), ("adt", "V", (var(0),))))))
+                    hs.append((0, ("adt", n, (("adt", "W", (a,)), ("adt", "V", (b,))))))
+                heads += hs
             elif r < 0.8 and k == 1:
                 # non-overlapping instances W<S0>, W<S1>, W<W<T>>
                 inner = list(consts)[:2] + [("adt", "W", (var(0),))]
@@ -369,4 +382,13 @@ def corpus():
              AImpl(0, 0, adt("Foo"), [], {0: adt("Bar")}),
              AImpl(0, 1, adt("Bar"), [], {1: ("proj", 0, adt("Vec", adt("Foo")))}),
              AImpl(1, 1, adt("Vec", var(0)), [("impl", 0, var(0))], {1: ("proj", 0, var(0))})]
-    return [AProg(adts, traits, impls, "corpus-nested")]
+    out = [AProg(adts, traits, impls, "corpus-nested")]
+    # a header with a repeated parameter passes could_match against Pair<U32, I32> but does not apply to it
+    adts2 = [("U32", 0), ("I32", 0), ("Same", 0), ("Mixed", 0), ("Pair", 2), ("W", 1)]
+    tr2 = [ATrait("Tr", [0])]
+    i_same = AImpl(1, 0, adt("Pair", var(0), var(0)), [], {0: adt("Same")})
+    i_mixed = AImpl(0, 0, adt("Pair", adt("U32"), adt("I32")), [], {0: adt("Mixed")})
+    i_deep = AImpl(1, 0, adt("Pair", adt("W", var(0)), var(0)), [], {0: adt("W", var(0))})
+    for order in ([i_same, i_mixed, i_deep], [i_mixed, i_same, i_deep], [i_deep, i_same, i_mixed]):
+        out.append(AProg(adts2, tr2, list(order), "corpus-repeated-param"))
+    return out
